@@ -18,7 +18,7 @@ TECHNIQUE = "runtime twin monitor: re-fitted bandit vs fresh bandit fit on the s
 RULE = ("48 policy combinations x prior histories of 3-12 ops (fit, partial_fit, add/remove arm, warm_start, queries) x new "
         "data D smaller/larger/with another feature count (1,2,3,5); non-trivial = |D| < rows held before, or other feature "
         "count, or prior warm start / arm change; distinct = (combo, prior skeleton, |D|, feature counts)")
-BUDGET = {"quick": {"cases": 48 * 15, "shards": 8}, "thorough": {"cases": 48 * 300, "shards": 16, "wall_s": 2400}}
+BUDGET = {"quick": {"cases": 48 * 15, "shards": 16}, "thorough": {"cases": 48 * 300, "shards": 16, "wall_s": 3600}}
 MIN = {"quick": {"evaluations": 600, "nontrivial": 300}, "thorough": {"evaluations": 12000, "nontrivial": 5000}}
 ASSUMPTIONS = ["the fresh twin is constructed with the same seed (k-means / trees take random_state from the seed value)",
                "'same random-stream position' = every generator object reachable from the bandit, grafted before and after fit(D)"]
